@@ -226,7 +226,7 @@ def load_prop(prop):
 
 
 def load_known(prop):
-    path = os.path.join(VERIF, "known_findings.json")
+    path = os.environ.get("VERIF_KNOWN_FINDINGS") or os.path.join(VERIF, "known_findings.json")
     if not os.path.exists(path):
         return {}
     with open(path) as f:
